@@ -594,7 +594,8 @@ def oracle_spectrum(case, v, Hop, shape, loops):
     Hp = (B.getH() @ H @ B).toarray()
     ev = np.linalg.eigvalsh(Hp)
     want = np.repeat(levels, mult)
-    if not np.allclose(ev, want, rtol=0, atol=1e-8):
+    hs = float(np.max(np.abs(h))) if h.size else 0.0      # the spectrum scales with the coefficients: compare relative to their size
+    if not np.allclose(ev, want, rtol=0, atol=1e-8 * (hs if hs > 0 else 1.0)):
         k = int(np.argmax(np.abs(ev - want)))
         bad.append(("C13:encode:spectrum-mismatch", f"shape {shape}: spectrum on the joint +1 eigenspace (dim {r}) differs from the fermionic one "
                                                     f"(each level x{mult}); largest deviation at level {k}: {ev[k]} vs {want[k]}"))
@@ -715,6 +716,11 @@ def gen_encode(tier, rng):
         reps = (40 if T else 8) if nq <= 8 else ((20 if T else 3) if nq <= 10 else (12 if T else 2))
         for r in range(reps):
             yield enc_case(shape, [hop(rand_coeffs(rng, n0, n1, 0.0 if r == 0 else 0.25))])
+        # the same operator at other magnitudes (exact power-of-two scalings): admissible coefficients may be tiny or huge
+        if nq <= 8 or T:
+            for e in (-30, -45, 24):
+                c = rand_coeffs(rng, n0, n1, 0.1)
+                yield enc_case(shape, [hop([[v * 2.0 ** e for v in row] for row in c])])
         # all-zero matrix, on-site only, hopping only, two terms
         if nq <= 8 or T:
             L = n0 * n1
